@@ -35,6 +35,7 @@ def interp2d(x, xf, f):
     >>> print(f_interp[0][2])
     2.0
     """
+    x, xf, f = np.asarray(x), np.asarray(xf), np.asarray(f)
     ind = np.argmin(np.abs(x[:, np.newaxis] - xf), axis=1)
     x_ind = xf[ind]
     ind0 = np.where(x_ind > x, ind - 1, ind)
